@@ -1,0 +1,63 @@
+//go:build verif
+
+package operations
+
+// Machine-checked contracts (comment-only; compiled to nothing). Checked by /verif/bin/stfsvc.
+
+//@ define opsReady(o ref) bool = o.backend.GetWriter != nil && o.backend.CloseWriter != nil && o.backend.GetReader != nil && o.backend.CloseReader != nil && o.metadata.Metadata != nil
+//@ define opsIdle(o ref) bool = !driveHeld && !mutexHeld[addr(o.diskOperationLock)]
+
+//@ func (*Operations).Delete
+//@   property C10
+//@   safety C10
+//@   requires opsReady(o) && opsIdle(o)
+//@   modifies *, driveHeld, mutexHeld[addr(o.diskOperationLock)]
+//@   ensures [drive-free] !driveHeld
+//@   ensures [ops-free] !mutexHeld[addr(o.diskOperationLock)]
+
+//@ func (*Operations).Move
+//@   property C10
+//@   safety C10
+//@   requires opsReady(o) && opsIdle(o)
+//@   modifies *, driveHeld, mutexHeld[addr(o.diskOperationLock)]
+//@   ensures [drive-free] !driveHeld
+//@   ensures [ops-free] !mutexHeld[addr(o.diskOperationLock)]
+
+//@ func (*Operations).Restore
+//@   property C10
+//@   safety C10
+//@   requires opsReady(o) && opsIdle(o)
+//@   modifies *, driveHeld, mutexHeld[addr(o.diskOperationLock)]
+//@   ensures [drive-free] !driveHeld
+//@   ensures [ops-free] !mutexHeld[addr(o.diskOperationLock)]
+
+//@ func (*Operations).Archive
+//@   property C10
+//@   safety C10
+//@   requires opsReady(o) && opsIdle(o) && getSrc != nil
+//@   modifies *, driveHeld, mutexHeld[addr(o.diskOperationLock)]
+//@   ensures [drive-free] !driveHeld
+//@   ensures [ops-free] !mutexHeld[addr(o.diskOperationLock)]
+
+//@ func (*Operations).archive
+//@   property C10
+//@   safety C10
+//@   requires opsReady(o) && !driveHeld && getSrc != nil
+//@   modifies *, driveHeld
+//@   ensures [drive-free] !driveHeld
+
+//@ func (*Operations).Update
+//@   property C10
+//@   safety C10
+//@   requires opsReady(o) && opsIdle(o) && getSrc != nil
+//@   modifies *, driveHeld, mutexHeld[addr(o.diskOperationLock)]
+//@   ensures [drive-free] !driveHeld
+//@   ensures [ops-free] !mutexHeld[addr(o.diskOperationLock)]
+
+//@ func (*Operations).Initialize
+//@   property C10
+//@   safety C10
+//@   requires opsReady(o) && opsIdle(o)
+//@   modifies *, driveHeld, mutexHeld[addr(o.diskOperationLock)]
+//@   ensures [drive-free] !driveHeld
+//@   ensures [ops-free] !mutexHeld[addr(o.diskOperationLock)]
